@@ -55,6 +55,28 @@ theorem wg_eq (names : Nat → Name) (s : State) (h : Inv names s) (ht : Termina
     simp only [wgDones, wgAdds, List.map_cons, List.sum_cons] at ih ⊢
     omega
 
+/-! ### the reader's shutdown after a failure of the output stream -/
+
+theorem run_append (names : Nat → Name) (a b : List Event) : ∀ s, run names s (a ++ b) = run names (run names s a) b := by
+  induction a with
+  | nil => intro s; rfl
+  | cons e es ih =>
+    intro s
+    simp only [List.cons_append, run]
+    split <;> exact ih _
+
+theorem failSeq_state (names : Nat → Name) (s : State) (hinv : Inv names s) (hr : s.rpc = .reading)
+    (hq : ∀ i, s.spc i = .idle ∨ ∃ r, s.spc i = .ret r) :
+    let s' := run names s failSeq
+    s'.rpc = .done ∧ s'.spc = s.spc ∧ s'.terminated = true ∧ s'.aborted = true ∧ s'.err = casErr s.err .fail := by
+  have hmu : s.sendMu = none := by
+    cases h : s.sendMu with
+    | none => rfl
+    | some i =>
+      have := (hinv.mu i).mpr h
+      rcases hq i with h' | ⟨r, h'⟩ <;> simp [h', holds] at this
+  simp [failSeq, run, step, hr, hmu]
+
 /-! ### `waitForResponses` -/
 
 /-- inside the select `result()` has been called; after the prod the process was aborted -/
